@@ -1,6 +1,7 @@
 import GolibsVerif.Driver.Util
 import GolibsVerif.Model.C12
 import GolibsVerif.Spec.C12
+import GolibsVerif.Go.Sort
 
 /-!
 Line protocol of C12 (see `harness/c12.go` for the Go side).
@@ -68,8 +69,52 @@ def sign (i : Int) : String := if i < 0 then "-1" else if i > 0 then "1" else "0
 
 def orBad (o : Option String) : String := o.getD "bad-op"
 
+/-! #### `C12.std.sortfunc`: the model of `slices.SortFunc` (`Go/Sort.lean`) against the real one
+
+`C12.std.sortfunc <cmp> <v>,<v>,…` — the elements are the values in the order given, each tagged
+with its position; the answer is the slice after the call as `<v>:<tag>,…` (so that any
+difference in the permutation performed is visible, not only a difference of the values).
+For `p4` / `p6` the values are address tokens and the comparator is `PreferIPv4` / `PreferIPv6`;
+otherwise they are small naturals. -/
+
+/-- the comparators on naturals, by id; `rps`, `neg`, `one`, `tagx`, `le` are not strict weak orders -/
+def natCmp (id : String) : Option (Nat × Nat → Nat × Nat → Int) :=
+  match id with
+  | "num" => some fun a b => (a.1 : Int) - b.1
+  | "rev" => some fun a b => (b.1 : Int) - a.1
+  | "mod3" => some fun a b => ((a.1 % 3 : Nat) : Int) - ((b.1 % 3 : Nat) : Int)
+  | "rps" => some fun a b =>
+      if a.1 % 3 = b.1 % 3 then 0 else if (a.1 % 3 + 1) % 3 = b.1 % 3 then -1 else 1
+  | "neg" => some fun _ _ => -1
+  | "one" => some fun _ _ => 1
+  | "zero" => some fun _ _ => 0
+  | "tagx" => some fun a b => ((a.1 + b.2) % 5 : Nat) - (2 : Int)
+  | "le" => some fun a b => if a.1 ≤ b.1 then -1 else 1
+  | _ => none
+
+def tagged {β} (l : List β) : List (β × Nat) := l.zipIdx
+
+def showTagged {β} (sh : β → String) (r : GoM (List (β × Nat))) : String :=
+  match r with
+  | .error e => showPanic e
+  | .ok l => if l.isEmpty then "-" else joinWith "," (l.map fun x => s!"{sh x.1}:{x.2}")
+
+def parseNatList (s : String) : Option (List Nat) :=
+  if s = "-" then some [] else allSome ((s.splitOn ",").map String.toNat?)
+
+def sortfuncOp (id l : String) : Option String :=
+  if id = "p4" ∨ id = "p6" then do
+    let xs ← parseAddrList l
+    let f := if id = "p4" then preferIPv4 else preferIPv6
+    pure (showTagged showAddr (Slices.sortFunc (fun a b => f a.1 b.1) (tagged xs)))
+  else do
+    let c ← natCmp id
+    let xs ← parseNatList l
+    pure (showTagged toString (Slices.sortFunc c (tagged xs)))
+
 def handle (op : String) (args : List String) : Option String :=
   match op, args with
+  | "C12.std.sortfunc", [id, l] => some <| orBad (sortfuncOp id l)
   | "C12.ip2addr", [fam, ip] => some <| orBad do
       let f ← fam.toNat?
       let i ← parseSlice ip
@@ -106,7 +151,7 @@ def handle (op : String) (args : List String) : Option String :=
   | "C12.sort", [fam, l] => some <| orBad do
       let f ← famFunc fam
       let xs ← parseAddrList l
-      let r := sortBy f xs
+      let r := Slices.sortFuncVal f xs
       pure (if r.isEmpty then "-" else joinWith "," (r.map showAddr))
   -- models of standard-library functions against the real ones
   | "C12.std.to4", [ip] => some <| orBad do
